@@ -966,7 +966,8 @@ def draw_simplices(
 
     # add the projected pairwise interactions
     dyads = subfaces(H_.edges.members(), order=1)
-    H_.add_edges_from(dyads)
+    for dyad in dyads:  # one by one: a (str, int) pair is not a (members, id) pair
+        H_.add_edge(dyad)
     H_.cleanup(
         multiedges=False,
         isolates=True,
